@@ -13,7 +13,7 @@ The model is of the repaired `parents.remove` (by identity).
 -/
 namespace Swh.C10
 open Swh Swh.Merkle
-variable {H : Type} {hashFn : Data → List (Name × H) → H}
+variable {H : Type} {hashFn : Data → List (EntryV H) → H}
 
 /-- the invariant holds initially -/
 theorem inv_init : Inv hashFn (Heap.empty : Heap H) := inv_empty
@@ -94,7 +94,7 @@ theorem no_stale_hash_final (ops : List Op) (a : AcyclicHist hashFn (Heap.empty 
 theorem fresh_spec (h : Heap H) (a : Acyclic h) (n : Id) :
     fresh hashFn h n = hashFn (h.get n).data
       ((if (h.get n).isDir then sortE (freshEnt (fresh hashFn h) h (h.get n).children)
-        else freshEnt (fresh hashFn h) h (h.get n).children).map EntryV.kv) := fresh_eq h a n
+        else freshEnt (fresh hashFn h) h (h.get n).children)) := fresh_eq h a n
 
 /-- **Removing a node from one parent never disturbs its link to another parent**: `del p[name]`
 leaves, in every node's `parents`, the number of back-links to every node other than `p`
@@ -177,5 +177,44 @@ example : ((run HTerm.hashFn Heap.empty exDirOps).2.all (fun o => !o.isErr)) = t
 example : ∀ t ∈ trace HTerm.hashFn (Heap.empty : Heap HTerm) exDirOps,
     OutOk HTerm.hashFn t.2.2 t.1 t.2.1 :=
   fun t ht => (no_stale_hash exDirOps exDirOps_acyclic t ht).1
+
+/-! A third history, with a hash that does NOT cover everything the parent's hash covers (as
+`sha1_git` does not cover a `Content`'s permissions): leaves `0` and `1` (data 3 and 5) get the same
+hash under `exQ`, and replacing one by the other — both already hashed — must still change the hash
+reported by the directory above.  The theorems hold for every `hashFn`, hence for this one. -/
+
+def exQ (d : Data) : Data := if d % 2 = 1 then d / 6 * 6 + 1 else d
+
+def exPermOps : List Op := [
+  .newNode 3 false true, .newNode 5 false true, .newNode 2 true false, .newNode 4 true false,
+  .setItem 2 [exName "x"] 0, .setItem 3 [exName "s"] 2,
+  .readHash 3, .readHash 1, .readHash 0,
+  .setItem 2 [exName "x"] 1, .readHash 3, .readEntries 2]
+
+theorem exPermOps_acyclic :
+    AcyclicHist (HTerm.hashFnQ exQ) (Heap.empty : Heap HTerm) exPermOps :=
+  acyclicHist_of_check [0, 0, 1, 2] exPermOps Heap.empty (by decide +kernel)
+
+example : ∀ t ∈ trace (HTerm.hashFnQ exQ) (Heap.empty : Heap HTerm) exPermOps,
+    OutOk (HTerm.hashFnQ exQ) t.2.2 t.1 t.2.1 :=
+  fun t ht => (no_stale_hash exPermOps exPermOps_acyclic t ht).1
+
+def exLeafHash : Option (Out HTerm) → Option Data
+  | some (.hash (.node a [])) => some a
+  | _ => none
+
+/-- the child data (permissions) recorded in the hash of the top directory for `s/x` -/
+def exPermUnder : Option (Out HTerm) → Option Data
+  | some (.hash (.node _ [(_, _, _, .node _ [(_, _, c, _)])])) => some c
+  | _ => none
+
+/-- the two leaves share a hash; the top directory's hash records permission data 3 before and 5
+after the replacement; nothing is rejected -/
+example :
+    let outs := (run (HTerm.hashFnQ exQ) Heap.empty exPermOps).2
+    exLeafHash outs[7]? = some 1 ∧ exLeafHash outs[8]? = some 1 ∧
+    exPermUnder outs[6]? = some 3 ∧ exPermUnder outs[10]? = some 5 ∧
+    outs.all (fun o => !o.isErr) = true := by
+  decide +kernel
 
 end Swh.C10
